@@ -26,7 +26,7 @@ from lib.tocoq import Nat, Raw, term, val
 PROP = "C13"
 PROPS_FILE = "props/C13.v"
 GEN = ["gen_barrier"]
-CORRESPONDENCES = ["barrier:real-LinearBarrier+_complete_snapshot~model(steps,enabled-sets,timeout-sets,outcomes)",
+CORRESPONDENCES = ["barrier:real-LinearBarrier+_complete_snapshot~model(steps,enabled-sets,timeout-sets,outcomes,final-enabled-sets)",
                    "barrier:legacy-shared-prefix-witnesses-reproduce",
                    "async_take:public-path-oracle",
                    "barrier:timeout-and-absent-rank-witnesses-reproduce"]
@@ -189,6 +189,7 @@ class C13Run:
         self.choices = []        # non-forced (choice among the options, number of options)
         self.deadlock = None
         self.trace = []
+        self.started = 0         # number of snapshot instances whose threads were spawned
 
 
 def run_scenario(W, insts, mode, choose, timeouts=False) -> C13Run:
@@ -249,10 +250,12 @@ def run_scenario(W, insts, mode, choose, timeouts=False) -> C13Run:
         if mode == "par":
             for k, inst in enumerate(insts):
                 spawn(k, inst)
+            run.started = len(insts)
             world.sched.run()
         else:
             for k, inst in enumerate(insts):
                 spawn(k, inst)
+                run.started = k + 1
                 world.sched.run()
     except dsched.Deadlock:
         run.deadlock = list(world.sched.deadlock)
@@ -315,7 +318,11 @@ def observe(W, insts, run: C13Run, prefix_ids):
         steps.append([op, sorted(rr for kk, rr, kind in en if kk == k and kind == "go"),
                       sorted(rr for kk, rr in wt if kk == k)])
     inst_obs = [[outcome[k], meta[k], iodone[k], tmo[k]] for k in range(len(insts))]
-    return sched, steps, inst_obs
+    # the final state: every thread finished (nothing enabled), or the run ended blocked: no normal step is possible
+    # and exactly the ranks parked at a store.wait could still time out
+    parked = [worker_of(n) for n, label in (run.deadlock or []) if label.startswith("store.wait")]
+    final = [[[], sorted(r for kk, r in parked if kk == k)] for k in range(len(insts))]
+    return sched, steps, inst_obs, final
 
 
 def prefix_id_map(insts):
@@ -326,12 +333,14 @@ def prefix_id_map(insts):
 
 
 def model_case(W, insts, run: C13Run):
+    # a sequential history that ended blocked never started its later snapshots: they are not part of the execution
+    insts = insts[:max(run.started, 1)]
     ids = prefix_id_map(insts)
-    sched, steps, inst_obs = observe(W, insts, run, ids)
+    sched, steps, inst_obs, final = observe(W, insts, run, ids)
     specs = [(ids[barrier_prefix(i)], Nat(W), [Nat(r) for r in sorted(i["iofail"])], bool(i["metafail"]),
               [Nat(r) for r in sorted(i.get("absent", ()))]) for i in insts]
     inp = f"({term(specs)}, {term([(Nat(k), Nat(r), bool(t)) for k, r, t in sched])})"
-    return inp, val([steps, inst_obs]), (sched, steps, inst_obs)
+    return inp, val([steps, inst_obs, final]), (sched, steps, inst_obs, final)
 
 
 # =========================================================================== the property, evaluated directly
